@@ -158,6 +158,39 @@ def run_law(ctx, name, columns, rows, exprs, refs, kinds=None):
             if not ok:
                 ctx.violation(f'c18.{name}', f'{exprs[i]} on {show(rowd)}: engine {show(got)!r} definition {show(exp)!r}', dict(case, row=show(rowd)))
                 return
+    # the same calls in key position: with one law expression shown, the rows ordered by ANOTHER one (often the same function
+    # with other constant arguments) come in the order of that other expression's values
+    if len(exprs) >= 2 and len(rows) <= 150:
+        import datetime as _dt
+        from decimal import Decimal as _Dec
+        for shown, key in ((0, 1),):
+            if exprs[shown] == exprs[key]:
+                continue
+            keys = []
+            for r in rows:
+                try:
+                    keys.append(refs[key](dict(zip(colnames, r))))
+                except Exception:  # noqa: BLE001
+                    keys.append(UNDEF)
+            kinds_seen = {type(v) for v in keys if v is not None}
+            if any(isinstance(v, _Dec) and not v.is_finite() for v in keys):
+                continue
+            if any(v is UNDEF for v in keys) or not kinds_seen or not (kinds_seen <= {int, bool, _Dec} or kinds_seen <= {str} or kinds_seen <= {_dt.date}):
+                continue
+            text2 = f'SELECT k, {exprs[shown]} AS r FROM #law ORDER BY {exprs[key]}, k'
+            try:
+                res2 = conn.execute(text2).fetchall()
+            except Exception as exc:  # noqa: BLE001
+                # (the statement with the expressions as targets ran: what fails here is the ordering of the values, not the law)
+                ctx.count(f'skipped.key_position_statement_raised.{type(exc).__name__}')
+                continue
+            ctx.count('obs.law_key_position_statements')
+            expected = [i for i, _ in sorted(enumerate(keys), key=lambda kv: (kv[1] is not None, kv[1] if kv[1] is not None else 0, kv[0]))]
+            if [r[0] for r in res2] != expected:
+                bad = next(n for n, (a, b) in enumerate(zip([r[0] for r in res2], expected)) if a != b)
+                ctx.violation(f'c18.{name}.key_position', f'{text2}: row {bad} of the result is table row {res2[bad][0]}; ordered by the values of {exprs[key]} it is table row '
+                              f'{expected[bad]}', dict(case, statement=text2))
+                return
 
 
 # ---------------------------------------------------------------------------
@@ -555,7 +588,39 @@ def cast_laws(ctx):
 
 
 # (cheap parts first: under a time cut-off the floors of every part are still met)
-PARTS = [cast_laws, string_laws, number_laws, account_laws, date_arith_laws, date_bin_laws, date_laws]
+def look_alike_calls(ctx):
+    """Two calls of one function that differ only in a constant argument (or in the column) are two different expressions: each
+    has its own values as a target AND as a sort key (run_law evaluates the second one in key position beside the first)."""
+    if ctx.shard % 4 != 1:
+        return
+    import random as _random
+    rng = _random.Random(18)
+    dates = [date(2019, 1, 1) + datetime.timedelta(days=rng.randrange(0, 1200)) for _ in range(60)]
+    rows = [(d, rng.randrange(0, 50), rng.randrange(0, 50)) for d in dates]
+    cols = [('d', T_DATE), ('i', T_INT), ('j', T_INT)]
+    for a, b, ra, rb in [
+            ('date_part("year", d)', 'date_part("month", d)', lambda r: r['d'].year, lambda r: r['d'].month),
+            ('date_part("month", d)', 'date_part("year", d)', lambda r: r['d'].month, lambda r: r['d'].year),
+            ('date_trunc("year", d)', 'date_trunc("month", d)', lambda r: r['d'].replace(month=1, day=1), lambda r: r['d'].replace(day=1)),
+            ('i % 2', 'i % 3', lambda r: r['i'] % 2, lambda r: r['i'] % 3), ('i % 7', 'j % 7', lambda r: r['i'] % 7, lambda r: r['j'] % 7),
+            ('year(d)', 'month(d)', lambda r: r['d'].year, lambda r: r['d'].month), ('day(d)', 'month(d)', lambda r: r['d'].day, lambda r: r['d'].month)]:
+        run_law(ctx, 'look_alike_calls', cols, rows, [a, b], [ra, rb])
+    words = ['Assets:Bank:Checking', 'Expenses:Food:Out', 'Income:Salary:Base', 'Assets:Cash:Wallet', 'Liabilities:Card:Visa', 'Equity:Opening:Balances',
+             'Expenses:Rent:Flat', 'Assets:Broker:Sub', 'Income:Gains:Long', 'Expenses:Fees:Bank']
+    rows = [(rng.choice(words), rng.choice(words)) for _ in range(40)]
+    cols = [('s', T_STR), ('t', T_STR)]
+    for a, b, ra, rb in [
+            ('substr(s, 0, 2)', 'substr(s, 7, 12)', lambda r: r['s'][0:2], lambda r: r['s'][7:12]),
+            ('splitcomp(s, ":", 0)', 'splitcomp(s, ":", 2)', lambda r: r['s'].split(':')[0], lambda r: r['s'].split(':')[2]),
+            ('splitcomp(s, ":", 1)', 'splitcomp(t, ":", 1)', lambda r: r['s'].split(':')[1], lambda r: r['t'].split(':')[1]),
+            ('root(s, 1)', 'root(s, 2)', lambda r: r['s'].split(':')[0], lambda r: ':'.join(r['s'].split(':')[:2])),
+            ('leaf(s)', 'leaf(t)', lambda r: r['s'].split(':')[-1], lambda r: r['t'].split(':')[-1]),
+            ('maxwidth(s, 48)', 'maxwidth(t, 48)', lambda r: r['s'], lambda r: r['t'])]:
+        run_law(ctx, 'look_alike_calls', cols, rows, [a, b], [ra, rb])
+    ctx.count('obs.look_alike_call_pairs', 13)
+
+
+PARTS = [look_alike_calls, cast_laws, string_laws, number_laws, account_laws, date_arith_laws, date_bin_laws, date_laws]
 
 
 def run(ctx):
